@@ -390,6 +390,8 @@ def _gen_op(r, work, cfg, git, reverse, touched):
         post = mutate_content(r, data)
         if not post:
             post = b"kept\n"
+        if post == data:
+            post = data + (b"" if data.endswith(b"\n") else b"\n") + b"kept too\n"
         op = Op("modify", p, pre=data, post=post, pre_mode=mode, post_mode=mode)
         op.style = "git" if git else "plain"
         if not git and cfg.allow_orig and r.random() < 0.15 and (p + ".orig") not in work:
